@@ -118,6 +118,11 @@ def patterns_for(shape, which):
                 k = [PhysicalAxis(s) for s in shape[1:]]
                 return PatternedTensor(base(off)[1].clone(), tuple(k), (SumAxis(1, unitAxis, shape[0] - 2),) + tuple(k), d)
             out.append(('onehot', onehot))
+
+            def onehot0(off):
+                k = [PhysicalAxis(s) for s in shape[1:]]
+                return PatternedTensor(base(off)[0].clone(), tuple(k), (SumAxis(0, unitAxis, shape[0] - 1),) + tuple(k), 0.)
+            out.append(('onehot0', onehot0))
             out.append(('onehot-default5', lambda off: onehot(off, 5.)))
         if shape[0] >= 3:
             def offset(off):
@@ -154,7 +159,7 @@ def patterns_for(shape, which):
         return [x for x in out if x[0] in ('dense', 'stride0-all', 'diag')][:3]
     if which == 'few3':
         return [x for x in out if x[0] in ('dense', 'diag', 'diag-last-two', 'stride0-all', 'onehot')]
-    return [x for x in out if x[0] in ('dense', 'stride0-all', 'diag', 'onehot', 'permuted')]
+    return [x for x in out if x[0] in ('dense', 'stride0-all', 'diag', 'onehot', 'onehot0', 'permuted')]
 
 
 def restride(ph, f, grad):
@@ -239,7 +244,7 @@ def equation_case(case, r):
     shapes = [tuple(sizes[c] for c in o) for o in ops]
     lists = [patterns_for(s, which) for s in shapes]
     for combo in itertools.product(*[[x[0] for x in l] for l in lists]):
-        for dev in ((False, True) if which in ('all', 'few') else (False,)):
+        for dev in ((False, True, 'shared') if which in ('all', 'few') else (False,)):
             one_combo(ops, out, sz, combo, dev, r)
 
 
@@ -251,13 +256,13 @@ def one_combo(ops, out, sz, names, dev, r):
     shapes = [tuple(sizes[c] for c in o) for o in ops]
     sub = ('E1', ops, out, sz, tuple(names), dev)
     eq = ','.join(''.join(o) for o in ops) + '->' + ''.join(out)
-    desc = '%s sizes %s patterns %r%s' % (eq, sz, list(names), ' with 0/inf entries' if dev else '')
+    desc = '%s sizes %s patterns %r%s' % (eq, sz, list(names), ' with 0/inf entries' if dev is True else (' (equal operands are the same object)' if dev else ''))
     try:
         ts = []
         for k, (shape, nm) in enumerate(zip(shapes, names)):
             b = dict(patterns_for(shape, 'all'))[nm]
             ts.append(b(3 * k))
-        if dev and ts:
+        if dev is True and ts:
             t0 = ts[0]
             if t0.physical.numel() and t0.physical.is_contiguous():
                 p = t0.physical.clone()
@@ -268,6 +273,14 @@ def one_combo(ops, out, sz, names, dev, r):
                 p = t1.physical.clone()
                 p.view(-1)[-1] = inf
                 ts[-1] = PatternedTensor(p, t1.paxes, t1.vaxes, t1.default)
+        if dev == 'shared':
+            # the very same PatternedTensor object (or a flattened / transposed view sharing its axes) for equal operands
+            for k in range(1, len(ts)):
+                for j in range(k):
+                    if shapes[j] == shapes[k] and names[j] == names[k]:
+                        ts[k] = ts[j]
+                    elif len(shapes[j]) == 2 and shapes[k] == tuple(reversed(shapes[j])) and names[j] == names[k] == 'dense':
+                        ts[k] = ts[j].T
         dense = [t.to_dense() for t in ts]
     except Exception as e:
         r.exc(e, 'build', sub, sub)
